@@ -211,6 +211,33 @@ def make_ops(rng, tag):
                 return False
         return ('decorate+call', f, ('equals', use_good))
 
+    def op_pep695():
+        # a PEP 695 parametrised callable whose stringified annotations name its own type parameter: decoration
+        # resolves them through a pooled scratch scope
+        use_good = rng.random() < .5
+        bound, good, bad = rng.choice((('int', 3, 'x'), ('str', 's', 3), (f'Fresh{tag}', None, 3)))
+        src = f"def g[T: {bound}](x: 'T') -> 'T':\n    return x\n"
+        uid = rng.randrange(10 ** 9)
+
+        def f():
+            import types as _ty
+            mname = f'c15p695_{tag}_{uid}_{threading.get_ident()}'
+            mod = _ty.ModuleType(mname)
+            mod.__dict__[f'Fresh{tag}'] = Fresh
+            sys.modules[mname] = mod
+            try:
+                exec(compile(src, f'<{mname}>', 'exec'), mod.__dict__)
+                w = beartype.beartype(mod.g)
+                arg = (Fresh() if good is None else good) if use_good else bad
+                try:
+                    w(arg)
+                    return True
+                except BeartypeHintViolation:
+                    return False
+            finally:
+                sys.modules.pop(mname, None)
+        return ('decorate-pep695+call', f, ('equals', use_good))
+
     def op_hook(shared):
         # own names are children of one parent created for this schedule, so that concurrent
         # registrations race on creating the same intermediate registry nodes
@@ -224,7 +251,7 @@ def make_ops(rng, tag):
         return ('hook:' + ('shared' if shared else 'own'), f, ('equals', True))
 
     makers = [lambda: op_conf(True), lambda: op_conf(True), lambda: op_conf(False), op_typehint, op_typehint, op_bearable, op_bearable,
-              op_die, op_subhint, op_decor, lambda: op_hook(True), lambda: op_hook(False)]
+              op_die, op_subhint, op_decor, op_pep695, op_pep695, lambda: op_hook(True), lambda: op_hook(False)]
     # make the threads share some operations (same fresh hint / conf / package from several threads)
     shared_ops = [rng.choice(makers)() for _ in range(2)]
     programs = []
